@@ -66,7 +66,7 @@ func (vc *VC) cutLoop(f *Frame, l *Loop, n *Node) {
 	env := f.invEnv(l, entryVals, n.St)
 	for i, c := range l.Ann.Inv {
 		vc.oblige("loop-inv-entry", fmt.Sprintf("invariant %d of loop %d of %s does not hold on entry: %s", i, l.Ordinal, f.fn.Name(), c.Text),
-			n.Reach, env.evalBool(c.E), append([]string{"@loop"}, c.Tags...)...)
+			n.Reach, env.evalGoal(c.E), append([]string{"@loop"}, c.Tags...)...)
 	}
 	// havoc loop-carried values and everything the body may modify
 	newVals := map[string]*SV{}
@@ -115,7 +115,7 @@ func (vc *VC) checkInvariant(f *Frame, l *Loop, from *Node, predIdx int, cond, w
 	env := f.invEnv(l, vals, from.St)
 	for i, c := range l.Ann.Inv {
 		vc.oblige("loop-inv-"+what, fmt.Sprintf("invariant %d of loop %d of %s is not %s by the body: %s", i, l.Ordinal, f.fn.Name(), what, c.Text),
-			cond, env.evalBool(c.E), append([]string{"@loop"}, c.Tags...)...)
+			cond, env.evalGoal(c.E), append([]string{"@loop"}, c.Tags...)...)
 	}
 }
 
